@@ -2,6 +2,7 @@ package rules
 
 import (
 	"fmt"
+	"go/constant"
 	"go/token"
 	"sort"
 
@@ -102,6 +103,9 @@ func checkNoSharedWrites(c *core.Ctx, key string, roots []*ssa.Function, why str
 		if f.Name() == "init" && f.Parent() == nil {
 			continue
 		}
+		if onceGuarded(f) {
+			continue // runs once, under sync.Once
+		}
 		for _, w := range globalWrites(c, f) {
 			bad = append(bad, fmt.Sprintf("%s: %s writes package-level state (%s)", c.PosStr(w.Pos()), fnKey(f), w.String()))
 			pos = w.Pos()
@@ -135,4 +139,284 @@ func goroutineRoots(p *progFacts) []*ssa.Function {
 		}
 	}
 	return out
+}
+
+// capturedWrites lists the stores a goroutine closure (and the closures nested in it) makes to variables
+// captured from the function that started it.
+func capturedWrites(fn *ssa.Function) []ssa.Instruction {
+	var out []ssa.Instruction
+	rooted := func(v ssa.Value) bool {
+		for d := 0; d < 8 && v != nil; d++ {
+			switch x := v.(type) {
+			case *ssa.FreeVar:
+				return true
+			case *ssa.IndexAddr:
+				v = x.X
+			case *ssa.FieldAddr:
+				v = x.X
+			case *ssa.UnOp:
+				if x.Op != token.MUL {
+					return false
+				}
+				v = x.X
+			default:
+				return false
+			}
+		}
+		return false
+	}
+	allInstrs(fn, func(f *ssa.Function, ins ssa.Instruction) {
+		switch x := ins.(type) {
+		case *ssa.Store:
+			if rooted(x.Addr) {
+				out = append(out, ins)
+			}
+		case *ssa.MapUpdate:
+			if rooted(x.Map) {
+				out = append(out, ins)
+			}
+		}
+	})
+	return out
+}
+
+// checkNoCapturedWrites: a function literal started with `go` may assign to a variable of the function that
+// started it only as a *collector*: it is started once (not in a loop), no other goroutine literal captures the
+// variable, and the starter touches the variable again only after it has received a completion token that this
+// goroutine sends (every CFG path from the go statement to the access passes through a receive on such a
+// channel; the counting idiom `for n := 1; n > 0; { select { ... n-- } }` is followed by evaluating the loop
+// test on the entry edge). Anything else is unsynchronised shared state.
+func checkNoCapturedWrites(c *core.Ctx, key string, p *progFacts) int {
+	n := 0
+	var bad []string
+	var pos token.Pos
+	note := func(at token.Pos, format string, a ...interface{}) {
+		bad = append(bad, c.PosStr(at)+": "+fmt.Sprintf(format, a...))
+		pos = at
+	}
+	for _, f := range p.funcs {
+		if isDeprecatedIndels(topFunc(f)) {
+			continue
+		}
+		for _, b := range f.Blocks {
+			for gi, ins := range b.Instrs {
+				g, ok := ins.(*ssa.Go)
+				if !ok {
+					continue
+				}
+				mc, ok := g.Common().Value.(*ssa.MakeClosure)
+				if !ok {
+					continue
+				}
+				fn, _ := mc.Fn.(*ssa.Function)
+				if fn == nil {
+					continue
+				}
+				n++
+				// which captured variables does the literal write?
+				written := map[int]ssa.Instruction{}
+				for _, w := range capturedWrites(fn) {
+					var addr ssa.Value
+					switch x := w.(type) {
+					case *ssa.Store:
+						addr = x.Addr
+					case *ssa.MapUpdate:
+						addr = x.Map
+					}
+					for d := 0; d < 8 && addr != nil; d++ {
+						switch x := addr.(type) {
+						case *ssa.FreeVar:
+							if x.Parent() == fn {
+								for k, fv := range fn.FreeVars {
+									if fv == x {
+										written[k] = w
+									}
+								}
+							} else {
+								written[-1] = w // a variable of an outer function, through a nested literal
+							}
+							addr = nil
+						case *ssa.IndexAddr:
+							addr = x.X
+						case *ssa.FieldAddr:
+							addr = x.X
+						case *ssa.UnOp:
+							addr = x.X
+						default:
+							addr = nil
+						}
+					}
+				}
+				if len(written) == 0 {
+					continue
+				}
+				if w, nested := written[-1]; nested {
+					note(w.Pos(), "a literal nested in the goroutine started at %s assigns to a captured variable", c.PosStr(g.Pos()))
+					continue
+				}
+				// completion tokens this goroutine sends
+				tokens := map[*ssa.MakeChan]bool{}
+				allInstrs(fn, func(_ *ssa.Function, in ssa.Instruction) {
+					if sd, ok := in.(*ssa.Send); ok {
+						for _, src := range p.chanSources(sd.Chan) {
+							tokens[src] = true
+						}
+					}
+				})
+				for k, w := range written {
+					if k >= len(mc.Bindings) {
+						continue
+					}
+					A, isAlloc := mc.Bindings[k].(*ssa.Alloc)
+					name := fn.FreeVars[k].Name()
+					if !isAlloc {
+						note(w.Pos(), "the goroutine started at %s assigns to %s, which is not a local of its starter", c.PosStr(g.Pos()), name)
+						continue
+					}
+					if blockInLoop(b) {
+						note(w.Pos(), "goroutines started in a loop at %s all assign to the starter's variable %s", c.PosStr(g.Pos()), name)
+						continue
+					}
+					shared := false
+					for _, r := range *A.Referrers() {
+						if omc, ok := r.(*ssa.MakeClosure); ok && omc != mc {
+							for _, rr := range *omc.Referrers() {
+								if _, isGo := rr.(*ssa.Go); isGo {
+									shared = true
+								}
+							}
+						}
+					}
+					if shared {
+						note(w.Pos(), "the starter's variable %s is assigned by the goroutine started at %s and captured by another goroutine", name, c.PosStr(g.Pos()))
+						continue
+					}
+					if at, ok := accessBeforeToken(p, f, b, gi+1, A, mc, tokens); !ok {
+						note(w.Pos(), "the goroutine started at %s assigns to %s, and %s touches %s at %s on a path that has not received that goroutine's completion token", c.PosStr(g.Pos()), name, fnKey(f), name, c.PosStr(at))
+					}
+				}
+			}
+		}
+	}
+	sort.Strings(bad)
+	c.Ob(key, len(bad) == 0, pos, "%s", first(bad, 3))
+	return n
+}
+
+// accessBeforeToken walks the starter's CFG from the instruction after the go statement; a path ends at a receive
+// from one of the token channels; reaching an instruction that uses the variable first is a violation.
+func accessBeforeToken(p *progFacts, f *ssa.Function, b0 *ssa.BasicBlock, i0 int, A *ssa.Alloc, self *ssa.MakeClosure, tokens map[*ssa.MakeChan]bool) (token.Pos, bool) {
+	isToken := func(ch ssa.Value) bool {
+		for _, src := range p.chanSources(ch) {
+			if tokens[src] {
+				return true
+			}
+		}
+		return false
+	}
+	uses := func(ins ssa.Instruction) bool {
+		if ins == ssa.Instruction(self) {
+			return false
+		}
+		for _, op := range ins.Operands(nil) {
+			if op != nil && *op == ssa.Value(A) {
+				return true
+			}
+		}
+		return false
+	}
+	type edge struct{ from, to *ssa.BasicBlock }
+	seen := map[edge]bool{}
+	type item struct {
+		from *ssa.BasicBlock
+		b    *ssa.BasicBlock
+		i    int
+	}
+	work := []item{{nil, b0, i0}}
+	for len(work) > 0 {
+		it := work[len(work)-1]
+		work = work[:len(work)-1]
+		stop := false
+		for i := it.i; i < len(it.b.Instrs) && !stop; i++ {
+			ins := it.b.Instrs[i]
+			if u, ok := ins.(*ssa.UnOp); ok && u.Op == token.ARROW && isToken(u.X) {
+				stop = true
+				break
+			}
+			if uses(ins) {
+				return ins.Pos(), false
+			}
+		}
+		if stop || len(it.b.Instrs) == 0 {
+			continue
+		}
+		succs := it.b.Succs
+		if iff, ok := it.b.Instrs[len(it.b.Instrs)-1].(*ssa.If); ok && len(succs) == 2 {
+			// (1) a select case that received the token ends the path on its true edge
+			if cond, ok := iff.Cond.(*ssa.BinOp); ok && cond.Op == token.EQL {
+				if ex, ok := cond.X.(*ssa.Extract); ok && ex.Index == 0 {
+					if sel, ok := ex.Tuple.(*ssa.Select); ok {
+						if k, ok := cond.Y.(*ssa.Const); ok && k.Value != nil {
+							if idx, exact := constant.Int64Val(k.Value); exact && int(idx) < len(sel.States) && isToken(sel.States[idx].Chan) {
+								succs = []*ssa.BasicBlock{succs[1]}
+							}
+						}
+					}
+				}
+			}
+			// (2) a loop test decided by the constant the counter has on the edge we arrived by
+			if cond, ok := iff.Cond.(*ssa.BinOp); ok && it.from != nil && len(succs) == 2 {
+				if phi, ok := cond.X.(*ssa.Phi); ok && phi.Block() == it.b {
+					if k2, ok := cond.Y.(*ssa.Const); ok && k2.Value != nil && k2.Value.Kind() == constant.Int {
+						for pi, pred := range it.b.Preds {
+							if pred != it.from {
+								continue
+							}
+							if k1, ok := phi.Edges[pi].(*ssa.Const); ok && k1.Value != nil && k1.Value.Kind() == constant.Int {
+								if constant.Compare(k1.Value, cond.Op, k2.Value) {
+									succs = []*ssa.BasicBlock{succs[0]}
+								} else {
+									succs = []*ssa.BasicBlock{succs[1]}
+								}
+							}
+						}
+					}
+				}
+			}
+		}
+		for _, s2 := range succs {
+			e := edge{it.b, s2}
+			if !seen[e] {
+				seen[e] = true
+				work = append(work, item{it.b, s2, 0})
+			}
+		}
+	}
+	return token.NoPos, true
+}
+
+// onceGuarded: the function literal is only ever passed to (*sync.Once).Do.
+func onceGuarded(f *ssa.Function) bool {
+	if f.Parent() == nil {
+		return false
+	}
+	found, other := false, false
+	for _, b := range f.Parent().Blocks {
+		for _, ins := range b.Instrs {
+			mc, ok := ins.(*ssa.MakeClosure)
+			if !ok || mc.Fn != f {
+				continue
+			}
+			for _, r := range *mc.Referrers() {
+				if call, ok := r.(ssa.CallInstruction); ok {
+					if cal := call.Common().StaticCallee(); cal != nil && cal.String() == "(*sync.Once).Do" {
+						found = true
+						continue
+					}
+				}
+				other = true
+			}
+		}
+	}
+	return found && !other
 }
